@@ -72,6 +72,12 @@ def gen_plan(seed, tier, idx):
     for L in rng.sample(LENGTHS, rng.choice([2, 3, 5])):
         steps.insert(rng.randrange(len(steps) + 1), {"op": "sample", "len": L, "k": 64,
                                                      "api": rng.choice(["mnemonic_bits", "mnemonic_bits", "new_wallet"])})
+    # bit-sensitivity: every one of >= ENT bit positions of the OS bytes served for a request must matter
+    for L in rng.sample(LENGTHS, rng.choice([1, 1, 2])):
+        steps.insert(rng.randrange(len(steps) + 1),
+                     {"op": "sensitivity", "len": L, "base": rng.getrandbits(64),
+                      "api": rng.choice(["mnemonic_bits", "mnemonic_bits", "mnemonic_bits", "new_wallet"])})
+    steps.append({"op": "env_replay"})
     return {"property": "C08", "seed": seed, "config": {}, "device_key": "c08-%d" % seed, "steps": steps}
 
 
@@ -151,6 +157,7 @@ def _run_child(plan):
              "prng_resets": 0, "clock_events": 0, "bits_checked": 0, "identity_mapping_held": 0,
              "identity_mapping_checked": 0}
     seen = {}            # mnemonic -> step index (no two fresh wallets coincide)
+    prev_windows = [None]
     snapshot = None
     pending_liveness = False
 
@@ -185,6 +192,11 @@ def _run_child(plan):
         stats["fresh_ok"] += 1
         nwords = len(mn.split(" "))
         ent_bits = 32 * nwords // 3
+        try:
+            ent = cm.entropy_from_mnemonic(mn, widx)
+        except Exception:
+            ent = None
+            add("C08/undecodable-mnemonic", {"clause": "decode"}, {"step": si, "mnemonic_words": nwords})
         # clause 1 + 4: a returned wallet must have obtained >= ENT bits in SUCCESSFUL device requests
         if got * 8 < ent_bits or nwords != f["len"]:
             add("C08/too-few-bits-from-os-source",
@@ -192,11 +204,18 @@ def _run_child(plan):
                  any(r[1] == tag and r[3] != "ok" for r in device.requests)},
                 {"step": si, "fresh": f, "bytes_obtained_from_device": got, "entropy_bits_needed": ent_bits,
                  "words": nwords, "device_fault": device.fault})
-        try:
-            ent = cm.entropy_from_mnemonic(mn, widx)
-        except Exception:
-            ent = None
-            add("C08/undecodable-mnemonic", {"clause": "decode"}, {"step": si, "mnemonic_words": nwords})
+        if check_dup and ent is not None:
+            # no long run of entropy bits may re-appear in the next fresh wallet of the same process
+            nb = len(ent) * 8
+            v = int.from_bytes(ent, "big")
+            wins = set((v >> k) & ((1 << 48) - 1) for k in range(0, nb - 47))
+            if prev_windows[0] is not None and len(wins) > 40 and len(prev_windows[0]) > 40:
+                common = wins & prev_windows[0]
+                if common:
+                    add("C08/consecutive-wallets-share-entropy", {"clause": "entropy-reused-across-wallets", "api": f["api"]},
+                        {"step": si, "fresh": f, "shared_48_bit_windows": len(common),
+                         "note": "a run of >= 48 entropy bits of the previous fresh wallet re-appears in this one"})
+            prev_windows[0] = wins
         if check_dup:
             if mn in seen:
                 add("C08/fresh-wallets-coincide", {"clause": "no-two-coincide", "api": f["api"]},
@@ -285,6 +304,67 @@ def _run_child(plan):
             elif device.fault is None and ("exc" in ra or "exc" in rb_):
                 add("C08/fresh-request-failed-without-fault", {"clause": "liveness", "api": f["api"], "after_fault": False},
                     {"step": si, "twin_a": ra, "twin_b": rb_})
+        elif op == "sensitivity":
+            if device.fault is not None:
+                continue
+            import hashlib as _h
+            L = st["len"]
+            f = {"api": st.get("api", "mnemonic_bits"), "len": L, "password": "", "testnet": False}
+            base = b"".join(_h.sha512(b"sens|%d|%d" % (st["base"], i)).digest() for i in range(2))
+            # Every evaluation starts from the SAME process state (a fork of this process), so a wallet that also
+            # depends on earlier requests (a pool, a DRBG) is compared like with like: only the OS bytes differ.
+            def one(stream):
+                def run_():
+                    device.forced = stream
+                    device.tag = "sens"
+                    n0 = sum(r[0] for r in device.requests if r[3] == "ok")
+                    mn_ = _do_fresh(f, device, None)
+                    return [mn_, sum(r[0] for r in device.requests if r[3] == "ok") - n0]
+                r_ = _fork_value(run_)
+                return r_.get("ok") or [None, 0]
+            m0, n_served = one(base)
+            if m0 is None or n_served == 0:
+                events.append([si, op, "skipped"])
+                continue
+            n_pos = 8 * min(n_served, 64)
+            sel = random.Random(st["base"])
+            positions = sorted(set(list(range(8)) + list(range(n_pos - 8, n_pos)) +
+                                   [sel.randrange(n_pos) for _ in range(40 if st.get("api") == "new_wallet" else 72)]))
+            sensitive = 0
+            dead = []
+            for j in positions:
+                b = bytearray(base)
+                b[j // 8] ^= 0x80 >> (j % 8)
+                mj, _n = one(bytes(b))
+                if mj is not None and mj != m0:
+                    sensitive += 1
+                else:
+                    dead.append(j)
+            n_unused_allowed = n_pos - ENT[L]          # an implementation may over-read; at most this many may be dead
+            stats["sensitivity_positions"] = stats.get("sensitivity_positions", 0) + len(positions)
+            need = len(positions) - n_unused_allowed
+            if sensitive < need:
+                add("C08/served-os-bits-do-not-all-matter",
+                    {"clause": "entropy-loss", "api": f["api"]},
+                    {"step": si, "mnemonic_len": L, "os_bytes_served_for_the_request": n_served,
+                     "bit_positions_tested": len(positions), "positions_whose_flip_changes_the_wallet": sensitive,
+                     "needed": need, "dead_positions_from_first_served_bit": dead[:24]})
+            events.append([si, op, L, n_served, sensitive])
+        elif op == "env_replay":
+            # adaptive: every environment variable the code was seen to consult during a fresh-wallet request is
+            # planted with a truthy value and the requests are repeated under the same oracle
+            seen_vars = sorted(k for k in device.env_reads if k not in ("HOME", "COLUMNS", "LINES"))
+            stats["env_vars_read_during_requests"] = seen_vars
+            if seen_vars and device.fault is None:
+                for val in ("1", "true", "0123456789abcdef0123456789abcdef"):
+                    for k in seen_vars:
+                        device.env_planted[k] = val
+                    for L in (12, 24):
+                        a = fresh(si, {"api": "mnemonic_bits", "len": L}, tag="s%d.env.%s.%d.a" % (si, val[:2], L))
+                        b = fresh(si, {"api": "new_wallet", "len": L, "password": "", "testnet": False},
+                                  tag="s%d.env.%s.%d.b" % (si, val[:2], L))
+                    device.env_planted.clear()
+                stats["env_replays"] = stats.get("env_replays", 0) + 1
         elif op == "sample":
             if device.fault is not None:
                 continue
